@@ -119,6 +119,18 @@ pub fn query(index_kind: Kind, index_bytes: &[u8], data_kind: Kind, data: Arc<Ve
                             Ok(n) => items.push(format!("Q|{off}|{:02x?}|{}", &buf[..n], u64::from(r.virtual_position()))),
                             Err(e) => items.push(format!("Q|{off}|read Err({:?})", e.kind())),
                         }
+                        // the other read entry points after a seek through the (possibly corrupt)
+                        // index: read_exact (own fast path), fill_buf
+                        if r.seek(SeekFrom::Start(off)).is_ok() {
+                            let mut b4 = [0u8; 4];
+                            let e = r.read_exact(&mut b4);
+                            items.push(format!("Q|{off}|read_exact {:?} {:02x?}", e.as_ref().map_err(|e| e.kind()), if e.is_ok() { b4 } else { [0; 4] }));
+                        }
+                        if r.seek(SeekFrom::Start(off)).is_ok() {
+                            use std::io::BufRead;
+                            let e = r.fill_buf().map(|b| b.len().min(1));
+                            items.push(format!("Q|{off}|fill_buf {:?}", e.map_err(|e| e.kind())));
+                        }
                     }
                     Err(e) => items.push(format!("Q|{off}|seek Err({:?})", e.kind())),
                 }
